@@ -140,6 +140,11 @@ public:
   double prob(size_t i) const { return vProb_[i]; }
 
   unsigned short getMethod() const { return method_; }
+
+#ifdef BIOPP_BPP_CORE_VERIF
+  // Verification hook (guarded, add-only): read access to the ratio cache of the local-ratio coding.
+  const std::vector<double>& verifRatioCache() const { return valpha_; }
+#endif
 };
 
 /**
